@@ -38,18 +38,42 @@ Lemma S_dot L left ll t s r res :
   is_dot t = true -> S_Member <=? ll = true -> PSx L (EDot left s) S_Member r res -> PSx L left ll (t :: TId s :: r) res.
 Proof. intros H1 H2 [n Hn]. exists (S n). rewrite parse_suffix_S. unfold suffix_step. rewrite H1, H2. exact Hn. Qed.
 
+Definition plain_tok (t : tok) : Prop := is_dot t = false /\ is_lbrack t = false /\ is_quest t = false.
+
 Lemma S_post L left ll t o r res :
-  is_dot t = false -> postfix_op t = Some o -> S_Update <=? L = false ->
+  plain_tok t -> postfix_op t = Some o -> S_Update <=? L = false ->
   (S_Member <=? ll) && is_target left = true -> PSx L (EUn o left) S_Update r res -> PSx L left ll (t :: r) res.
-Proof. intros H1 H2 H3 H4 [n Hn]. exists (S n). rewrite parse_suffix_S. unfold suffix_step. rewrite H1, H2, H3, H4. exact Hn. Qed.
+Proof. intros (H1 & H1b & H1c) H2 H3 H4 [n Hn]. exists (S n). rewrite parse_suffix_S. unfold suffix_step. rewrite H1, H1b, H1c, H2, H3, H4. exact Hn. Qed.
+
+Lemma S_index L left ll t r i c r' res :
+  is_dot t = false -> is_lbrack t = true -> S_Member <=? ll = true ->
+  PEx 0 r (i, c :: r') -> is_rbrack c = true -> PSx L (EIndex left i) S_Member r' res -> PSx L left ll (t :: r) res.
+Proof.
+  intros H1 H2 H3 [n1 Hn1] H4 [n2 Hn2]. exists (S (Nat.max n1 n2)). rewrite parse_suffix_S. unfold suffix_step.
+  rewrite H1, H2, H3. rewrite (parse_expr_mono n1 (Nat.max n1 n2) _ _ _ (Nat.le_max_l _ _) Hn1). rewrite H4.
+  exact (parse_suffix_mono n2 _ _ _ _ _ _ (Nat.le_max_r _ _) Hn2).
+Qed.
+
+Lemma S_cond L left ll t r y c r' no r'' res :
+  is_dot t = false -> is_lbrack t = false -> is_quest t = true -> S_Cond <=? L = false -> S_Cond <? ll = true ->
+  PEx 3 r (y, c :: r') -> is_colon c = true -> PEx 3 r' (no, r'') ->
+  PSx L (ECond left y no) S_Cond r'' res -> PSx L left ll (t :: r) res.
+Proof.
+  intros H1 H2 H3 H4 H5 [n1 Hn1] H6 [n2 Hn2] [n3 Hn3].
+  exists (S (Nat.max n1 (Nat.max n2 n3))). rewrite parse_suffix_S. unfold suffix_step.
+  rewrite H1, H2, H3, H4, H5.
+  rewrite (parse_expr_mono n1 _ _ _ _ (Nat.le_max_l _ _) Hn1). rewrite H6.
+  rewrite (parse_expr_mono n2 (Nat.max n1 (Nat.max n2 n3)) _ _ _ (Nat.le_trans _ _ _ (Nat.le_max_l n2 n3) (Nat.le_max_r n1 _)) Hn2).
+  exact (parse_suffix_mono n3 _ _ _ _ _ _ (Nat.le_trans _ _ _ (Nat.le_max_r n2 n3) (Nat.le_max_r n1 _)) Hn3).
+Qed.
 
 Lemma S_bin L left ll t o r rt r' res :
-  is_dot t = false -> postfix_op t = None -> binary_op t = Some o -> spec_level o <=? L = false ->
+  plain_tok t -> postfix_op t = None -> binary_op t = Some o -> spec_level o <=? L = false ->
   left_ok o ll left = true -> PEx (right_level o) r (rt, r') -> PSx L (EBin o left rt) (spec_level o) r' res ->
   PSx L left ll (t :: r) res.
 Proof.
-  intros H1 H2 H3 H4 H5 [n1 Hn1] [n2 Hn2]. exists (S (Nat.max n1 n2)). rewrite parse_suffix_S. unfold suffix_step.
-  rewrite H1, H2, H3, H4, H5. rewrite (parse_expr_mono n1 (Nat.max n1 n2) _ _ _ (Nat.le_max_l _ _) Hn1).
+  intros (H1 & H1b & H1c) H2 H3 H4 H5 [n1 Hn1] [n2 Hn2]. exists (S (Nat.max n1 n2)). rewrite parse_suffix_S. unfold suffix_step.
+  rewrite H1, H1b, H1c, H2, H3, H4, H5. rewrite (parse_expr_mono n1 (Nat.max n1 n2) _ _ _ (Nat.le_max_l _ _) Hn1).
   exact (parse_suffix_mono n2 _ _ _ _ _ _ (Nat.le_max_r _ _) Hn2).
 Qed.
 
@@ -57,13 +81,16 @@ Qed.
 Definition head_stop (M : Z) (rest : list tok) : bool :=
   match rest with
   | [] => true
-  | t :: _ => negb (is_dot t) && (match postfix_op t with Some _ => S_Update <=? M | None => true end)
+  | t :: _ => negb (is_dot t) && negb (is_lbrack t) && (if is_quest t then S_Cond <=? M else true)
+              && (match postfix_op t with Some _ => S_Update <=? M | None => true end)
               && (match binary_op t with Some o => spec_level o <=? M | None => true end)
   end.
 Lemma S_stop L left ll rest : head_stop L rest = true -> PSx L left ll rest (left, rest).
 Proof.
   intro H. exists 1%nat. rewrite parse_suffix_S. unfold suffix_step. destruct rest as [|t r]; [reflexivity|].
-  simpl in H. apply andb_true_iff in H as [H H3]. apply andb_true_iff in H as [H1 H2]. apply negb_true_iff in H1. rewrite H1.
+  simpl in H. apply andb_true_iff in H as [H H3]. apply andb_true_iff in H as [H H2]. apply andb_true_iff in H as [H Hq].
+  apply andb_true_iff in H as [H1 Hb]. apply negb_true_iff in H1. apply negb_true_iff in Hb. rewrite H1, Hb.
+  destruct (is_quest t); [rewrite Hq; reflexivity|].
   destruct (postfix_op t); [rewrite H2; reflexivity|]. destruct (binary_op t); [rewrite H3; reflexivity | reflexivity].
 Qed.
 
@@ -72,10 +99,10 @@ Lemma spec_level_is_op_level o : spec_level o = op_level o.
 Proof. destruct o; reflexivity. Qed.
 
 Lemma bin_tok o : op_kind o = KBin ->
-  is_dot (op_tok o) = false /\ postfix_op (op_tok o) = None /\ binary_op (op_tok o) = Some o /\ toks_of (IOp o) = [op_tok o].
+  plain_tok (op_tok o) /\ postfix_op (op_tok o) = None /\ binary_op (op_tok o) = Some o /\ toks_of (IOp o) = [op_tok o].
 Proof. destruct o; intro H; try discriminate; repeat split; reflexivity. Qed.
 Lemma post_tok o : op_kind o = KPost ->
-  is_dot (op_tok o) = false /\ postfix_op (op_tok o) = Some o /\ toks_of (IOp o) = [op_tok o].
+  plain_tok (op_tok o) /\ postfix_op (op_tok o) = Some o /\ toks_of (IOp o) = [op_tok o].
 Proof. destruct o; intro H; try discriminate; repeat split; reflexivity. Qed.
 Lemma pre_tok o : op_kind o = KPre -> prefix_op (op_tok o) = Some o /\ toks_of (IOp o) = [op_tok o].
 Proof. destruct o; intro H; try discriminate; repeat split; reflexivity. Qed.
@@ -84,6 +111,15 @@ Lemma find_op_sound k t o : find_op k t = Some o -> op_tok o = t.
 Proof.
   unfold find_op. intro H. apply find_some in H as [_ H]. apply andb_true_iff in H as [_ H].
   destruct (op_tok o) eqn:E1; destruct t; simpl in H; try discriminate.
+  - apply zlist_eqb_eq in H. congruence.
+  - apply zlist_eqb_eq in H. congruence.
+  - apply andb_true_iff in H as [H1 H2]. apply zlist_eqb_eq in H1. apply zlist_eqb_eq in H2. congruence.
+  - apply zlist_eqb_eq in H. congruence.
+Qed.
+
+Lemma tok_eqb_eq a b : tok_eqb a b = true -> a = b.
+Proof.
+  destruct a, b; simpl; intro H; try discriminate.
   - apply zlist_eqb_eq in H. congruence.
   - apply zlist_eqb_eq in H. congruence.
   - apply andb_true_iff in H as [H1 H2]. apply zlist_eqb_eq in H1. apply zlist_eqb_eq in H2. congruence.
@@ -118,8 +154,8 @@ Lemma dot_tok : is_dot (TP [46]) = true.
 Proof. reflexivity. Qed.
 
 (* ---- structure of print_items ---- *)
-Definition lvl (e : expr) : Z := match e with EUn o _ | EBin o _ _ => op_level o | _ => LMember end.
-Definition compound (e : expr) : bool := match e with EUn _ _ | EBin _ _ _ => true | _ => false end.
+Definition lvl (e : expr) : Z := match e with EUn o _ | EBin o _ _ => op_level o | ECond _ _ _ => LConditional | _ => LMember end.
+Definition compound (e : expr) : bool := match e with EUn _ _ | EBin _ _ _ | ECond _ _ _ => true | _ => false end.
 Definition wrapped (P : Z) (e : expr) : bool := compound e && (P >=? lvl e).
 Definition ll_of (P : Z) (e : expr) : Z := if wrapped P e then S_Member else lvl e.
 Definition body (e : expr) : list item := print_items (-1) e.
@@ -130,7 +166,7 @@ Proof. destruct o; vm_compute; split; discriminate. Qed.
 Lemma print_items_split P e :
   print_items P e = if wrapped P e then [IOpen] ++ body e ++ [IClose] else body e.
 Proof.
-  unfold wrapped, body. destruct e as [s|s|b f|t s|o v|o l r]; try reflexivity.
+  unfold wrapped, body. destruct e as [s|s|b f|t s|o v|o l r|c0 y0 n0|t0 i0]; try reflexivity.
   - simpl compound. simpl lvl. cbn [print_items]. pose proof (op_level_pos o) as Hp.
     replace (-1 >=? op_level o) with false by (symmetry; rewrite Z.geb_leb; apply Z.leb_gt; lia).
     unfold paren. destruct (P >=? op_level o); reflexivity.
@@ -138,6 +174,10 @@ Proof.
     replace (-1 >=? op_level o) with false by (symmetry; rewrite Z.geb_leb; apply Z.leb_gt; lia).
     unfold paren. destruct (P >=? op_level o); reflexivity.
 Qed.
+
+Lemma body_cond c y n : body (ECond c y n) =
+  print_items LConditional c ++ [IQuest] ++ print_items LYield y ++ [IColon] ++ print_items LYield n.
+Proof. reflexivity. Qed.
 
 Definition left_lvl (o : op) (l : expr) : Z :=
   if op_eqb o BPow && (match l with EUn u _ => negb (op_eqb u UPreDec || op_eqb u UPreInc || op_eqb u UPostDec || op_eqb u UPostInc) | ENum _ => true | _ => false end)
@@ -175,10 +215,12 @@ Fixpoint wf (e : expr) : Prop :=
   | EDot t s => wf t /\ id_shape s /\ regex_after_word s = false
   | EUn o v => wf v /\ op_kind o <> KBin /\ (is_update o = true -> is_target v = true)
   | EBin o l r => wf l /\ wf r /\ op_kind o = KBin /\ (is_assign o = true -> is_target l = true)
+  | ECond c y n => wf c /\ wf y /\ wf n
+  | EIndex t i => wf t /\ wf i
   end.
 
 Lemma is_target_norm e : is_target (norm e) = is_target e.
-Proof. destruct e as [s|s|b f|t s|o v|o l r]; try reflexivity. simpl. destruct (op_eqb o BComma); [|reflexivity]. destruct (norm r) as [| | | | |o0 ? ?]; try reflexivity. destruct o0; reflexivity. Qed.
+Proof. destruct e as [s|s|b f|t s|o v|o l r|c0 y0 n0|t0 i0]; try reflexivity. simpl. destruct (op_eqb o BComma); [|reflexivity]. destruct (norm r) as [| | | | |o0 ? ?| |]; try reflexivity. destruct o0; reflexivity. Qed.
 
 (* ---- facts about the operand levels chosen by the printer (finite case analyses over the operator) ---- *)
 Definition lpl (o : op) : Z := if is_right_assoc o then op_level o else op_level o - 1.
@@ -228,7 +270,7 @@ Proof. destruct o; intro H; try discriminate; reflexivity. Qed.
 Lemma lvl_atom e : compound e = false -> lvl e = S_Member.
 Proof. destruct e; simpl; intro H; try discriminate; reflexivity. Qed.
 Lemma lvl_le e : lvl e <= S_Member.
-Proof. destruct e; simpl; unfold S_Member, LMember; try lia; pose proof (op_level_pos o); lia. Qed.
+Proof. destruct e; simpl; unfold S_Member, LMember, LConditional; try lia; pose proof (op_level_pos o); lia. Qed.
 
 Lemma left_ok_print o l :
   wf l -> op_kind o = KBin -> (is_assign o = true -> is_target l = true) ->
@@ -239,7 +281,7 @@ Proof.
     destruct l; try discriminate; reflexivity.
   - destruct (op_eqb o BPow) eqn:Ep.
     + assert (o = BPow) by (destruct o; try discriminate; reflexivity). subst o.
-      destruct l as [s|s|b f|t s|u v|o2 a b]; try reflexivity.
+      destruct l as [s|s|b f|t s|u v|o2 a b|c0 y0 n0|t0 i0]; try reflexivity.
       * destruct u; reflexivity.
       * unfold left_lvl, ll_of, wrapped. simpl.
         replace (LExponentiation >=? op_level o2) with true; [reflexivity|].
@@ -247,7 +289,7 @@ Proof.
         destruct o2; try discriminate; vm_compute; discriminate.
     + destruct (op_eqb o BNullish) eqn:En.
       * assert (o = BNullish) by (destruct o; try discriminate; reflexivity). subst o.
-        destruct l as [s|s|b f|t s|u v|o2 a b]; try reflexivity.
+        destruct l as [s|s|b f|t s|u v|o2 a b|c0 y0 n0|t0 i0]; try reflexivity.
         -- destruct Hwf as (_ & Hku & _). destruct u; try (exfalso; apply Hku; reflexivity); reflexivity.
         -- destruct o2; reflexivity.
       * unfold left_lvl. rewrite Ep, En. simpl andb. cbv iota.
@@ -262,7 +304,11 @@ Proof.
 Qed.
 
 Definition lv_ok (L P : Z) (e : expr) : Prop :=
-  match e with EBin o _ _ => wrapped P e = true \/ L < op_level o | _ => True end.
+  match e with
+  | EBin o _ _ => wrapped P e = true \/ L < op_level o
+  | ECond _ _ _ => wrapped P e = true \/ (L < LConditional /\ P <= LYield)
+  | _ => True
+  end.
 
 Lemma right_level_eq o : right_level o = if is_assign o then 3 else if op_eqb o BPow then 16 else if op_eqb o BNullish then 8 else spec_level o.
 Proof. destruct o; reflexivity. Qed.
@@ -270,7 +316,8 @@ Proof. destruct o; reflexivity. Qed.
 Lemma right_ok_print o r :
   op_kind o = KBin -> (o = BComma -> not_comma r) -> lv_ok (right_level o) (right_lvl o r) r.
 Proof.
-  intros Hk Hc. destruct r as [s|s|b f|t s|u v|o2 a b]; try exact I.
+  intros Hk Hc. destruct r as [s|s|b f|t s|u v|o2 a b|c0 y0 n0|t0 i0]; try exact I;
+    [|unfold lv_ok; destruct o; try discriminate; first [left; reflexivity | right; split; [reflexivity | discriminate]]].
   unfold lv_ok, wrapped. simpl compound. simpl lvl. simpl andb.
   destruct (op_eqb o BNullish) eqn:En.
   - assert (o = BNullish) by (destruct o; try discriminate; reflexivity). subst o.
@@ -290,7 +337,8 @@ Definition fol (P : Z) (rest : list tok) : bool :=
   match rest with
   | [] => true
   | t :: _ =>
-      if is_dot t then LPostfix <=? P
+      if is_dot t || is_lbrack t then LPostfix <=? P
+      else if is_quest t then LConditional <=? P
       else match postfix_op t with
            | Some _ => LPrefix <=? P
            | None => match binary_op t with Some o => lpl o <=? P | None => true end
@@ -300,7 +348,8 @@ Definition fol (P : Z) (rest : list tok) : bool :=
 Lemma fol_weaken P P' rest : P <= P' -> fol P rest = true -> fol P' rest = true.
 Proof.
   intros Hle H. destruct rest as [|t r]; [reflexivity|]. simpl in *.
-  destruct (is_dot t); [apply Z.leb_le in H; apply Z.leb_le; lia|].
+  destruct (is_dot t || is_lbrack t); [apply Z.leb_le in H; apply Z.leb_le; lia|].
+  destruct (is_quest t); [apply Z.leb_le in H; apply Z.leb_le; lia|].
   destruct (postfix_op t); [apply Z.leb_le in H; apply Z.leb_le; lia|].
   destruct (binary_op t); [apply Z.leb_le in H; apply Z.leb_le; lia | reflexivity].
 Qed.
@@ -313,12 +362,16 @@ Qed.
 
 (* below level 18 nothing but a binary operator of bounded level can follow, and it stops an operand parse *)
 Lemma fol_stop P M rest :
-  fol P rest = true -> P < LPrefix ->
+  fol P rest = true -> P < LPrefix -> P <= M ->
   (forall o, op_kind o = KBin -> lpl o <= P -> spec_level o <=? M = true) ->
   head_stop M rest = true.
 Proof.
-  intros H HP HM. destruct rest as [|t r]; [reflexivity|]. simpl in *.
+  intros H HP HPM HM. destruct rest as [|t r]; [reflexivity|]. simpl in *.
   destruct (is_dot t); [apply Z.leb_le in H; unfold LPostfix, LPrefix in *; lia|].
+  destruct (is_lbrack t); [apply Z.leb_le in H; unfold LPostfix, LPrefix in *; lia|]. simpl.
+  destruct (is_quest t) eqn:Eq.
+  { apply Z.leb_le in H. replace (S_Cond <=? M) with true by (symmetry; apply Z.leb_le; unfold S_Cond, LConditional in *; lia).
+    apply tok_eqb_eq in Eq. subst t. reflexivity. }
   destruct (postfix_op t); [apply Z.leb_le in H; lia|]. simpl.
   destruct (binary_op t) as [o|] eqn:Eb; [|reflexivity].
   apply HM; [eapply binary_op_kind; eauto | apply Z.leb_le in H; exact H].
